@@ -16,3 +16,11 @@ import MajoranaVerif.Proofs.Bytes
 import MajoranaVerif.Proofs.Opcodes
 import MajoranaVerif.Props.C02
 import MajoranaVerif.Props.C16
+import MajoranaVerif.Model.Bus
+import MajoranaVerif.Model.LineCache
+import MajoranaVerif.Model.KvLru
+import MajoranaVerif.Proofs.Bus
+import MajoranaVerif.Proofs.LineCache
+import MajoranaVerif.Proofs.KvLru
+import MajoranaVerif.Props.C13
+import MajoranaVerif.Props.C14
